@@ -3,6 +3,7 @@
 //! usage: firmc <Cxx> <quick|thorough> [--replay <file>] [--sub] [--child <spec>]
 mod alg;
 mod coef;
+mod conv;
 mod explore;
 mod guard;
 mod ideal;
